@@ -271,10 +271,15 @@ public:
    */
   void setFather(const std::shared_ptr<N>  nodeObject, const std::shared_ptr<N> fatherNodeObject, const std::shared_ptr<E> edgeObject = 0)
   {
-    if (edgeObject)
+    if (edgeObject && this->hasEdge(edgeObject))
       this->getGraph()->setFather(this->getNodeGraphid(nodeObject), this->getNodeGraphid(fatherNodeObject), this->getEdgeGraphid(edgeObject));
     else
+    {
       this->getGraph()->setFather(this->getNodeGraphid(nodeObject), this->getNodeGraphid(fatherNodeObject));
+      // an edge object not known yet is attached to the new edge
+      if (edgeObject)
+        this->associateEdge(edgeObject, this->getGraph()->getEdge(this->getNodeGraphid(fatherNodeObject), this->getNodeGraphid(nodeObject)));
+    }
   }
 
 
@@ -287,10 +292,15 @@ public:
    */
   void addSon(const std::shared_ptr<N>  nodeObject, const std::shared_ptr<N> sonNodeObject, const std::shared_ptr<E> edgeObject = 0)
   {
-    if (edgeObject)
+    if (edgeObject && this->hasEdge(edgeObject))
       this->getGraph()->addSon(this->getNodeGraphid(nodeObject), this->getNodeGraphid(sonNodeObject), this->getEdgeGraphid(edgeObject));
     else
+    {
       this->getGraph()->addSon(this->getNodeGraphid(nodeObject), this->getNodeGraphid(sonNodeObject));
+      // an edge object not known yet is attached to the new edge
+      if (edgeObject)
+        this->associateEdge(edgeObject, this->getGraph()->getEdge(this->getNodeGraphid(nodeObject), this->getNodeGraphid(sonNodeObject)));
+    }
   }
 
   /**
